@@ -36,7 +36,7 @@ namespace OpenMEEG {
         explicit SymMatrix(const Vector& v);
         explicit SymMatrix(const Matrix& A);
 
-        size_t size() const { return nlin()*(nlin()+1)/2; };
+        size_t size() const { return static_cast<size_t>(nlin())*(static_cast<size_t>(nlin())+1)/2; };
         void info() const ;
 
         Dimension  ncol() const { return nlin(); } // SymMatrix only need num_lines
@@ -52,13 +52,13 @@ namespace OpenMEEG {
         double  operator()(const Index i,const Index j) const {
             om_assert(i<nlin());
             om_assert(j<nlin());
-            return data()[(i<=j) ? i+j*(j+1)/2 : j+i*(i+1)/2];
+            return data()[(i<=j) ? i+static_cast<size_t>(j)*(j+1)/2 : j+static_cast<size_t>(i)*(i+1)/2];
         }
 
         double& operator()(const Index i,const Index j) {
             om_assert(i<nlin());
             om_assert(j<nlin());
-            return data()[(i<=j) ? i+j*(j+1)/2 : j+i*(i+1)/2];
+            return data()[(i<=j) ? i+static_cast<size_t>(j)*(j+1)/2 : j+static_cast<size_t>(i)*(i+1)/2];
         }
 
         Matrix    operator()(const Index i_start,const Index i_end,const Index j_start,const Index j_end) const;
